@@ -3171,6 +3171,32 @@ def flow_case(kind, window=(4096, 1024), half='L', nwin=8, slow=True,
 # their connection (specs/Forward/ListenAsync.tla)
 # ======================================================================
 
+class RecListener(asyncssh.SSHListener):
+    """A listener the server APPLICATION supplies: it listens by itself (an
+    in-memory server, or a listener that lives on another SSH connection)
+    and records what asyncssh does with it."""
+
+    def __init__(self, world, k, server=None, inner=None, port=0):
+        super().__init__()
+        self.world, self.k = world, k
+        self.server, self.inner, self.port = server, inner, port
+        self.close_calls = 0
+        self.wait_calls = 0
+
+    def get_port(self):
+        return self.inner.get_port() if self.inner is not None else self.port
+
+    def close(self):
+        self.close_calls += 1
+        if self.inner is not None:
+            self.inner.close()
+        elif self.server is not None:
+            self.server.close()
+
+    async def wait_closed(self):
+        self.wait_calls += 1
+
+
 class AsyncListenWorld:
     def __init__(self):
         world = self
@@ -3180,6 +3206,8 @@ class AsyncListenWorld:
         self.tasks = {}
         self.cfg = {}
         self.expect = None
+        self.rec = {}               # request -> RecListener handed to asyncssh
+        self.conn2 = None
         self.remote_order = []      # remote requests the server has not seen
         self.gating = False
         self.dead = False
@@ -3207,14 +3235,18 @@ class AsyncListenWorld:
 
         class Server(asyncssh.SSHServer):
             def connection_made(self, conn):
-                world.sconn = conn
+                if getattr(world, 'sconn', None) is None:
+                    world.sconn = conn
 
             def begin_auth(self, username):
                 return False
 
             def _decide(self):
+                k_ = world.remote_order.pop(0)
+                if world.cfg[k_].get('sync'):
+                    return world.make_answer(k_)
                 f = loop.create_future()
-                world.decisions[world.remote_order.pop(0)] = f
+                world.decisions[k_] = f
                 return f
 
             def server_requested(self, listen_host, listen_port):
@@ -3240,6 +3272,69 @@ class AsyncListenWorld:
         if not any(c == clause and k == cause for c, _, k in self.l1):
             self.l1.append((clause, detail, cause))
 
+    def make_answer(self, k):
+        """what the server application answers to listen request k"""
+        c = self.cfg[k]
+        ans, unix = c.get('ans', 'true'), c['fam'] == 'unix'
+        loop = self.loop
+        if ans == 'false':
+            return False
+        if ans == 'true':
+            self.expect = k
+            return True
+        if ans == 'callable':
+            self.expect = k
+            return lambda orig_host, orig_port: True
+        if ans == 'acallable':
+            self.expect = k
+
+            async def accept(orig_host, orig_port):
+                return True
+            return accept
+        saved, self.expect = self.expect, None
+        try:
+            if ans == 'otherconn':
+                if self.conn2 is None:
+                    async def c2():
+                        return await asyncssh.connect(
+                            '127.0.0.1', 2222, known_hosts=None, config=None,
+                            client_keys=None)
+                    self.conn2 = self._run(c2())
+
+                async def mk():
+                    if unix:
+                        return await self.conn2.forward_local_path(
+                            f'c20-al{k}.sock', R_PATH)
+                    return await self.conn2.forward_local_port(
+                        '127.0.0.1', c.get('fixed', 0), R_HOST, R_PORT)
+                rec = RecListener(self, k, inner=self._run(mk()))
+            else:
+                async def mk():
+                    if unix:
+                        return await loop.create_unix_server(
+                            asyncio.Protocol, f'c20-al{k}.sock'), 0
+                    port = c.get('fixed') or loop.net.alloc_port()
+                    return await loop.create_server(asyncio.Protocol,
+                                                    '127.0.0.1', port), port
+                srv, port = self._run(mk())
+                rec = RecListener(self, k, server=srv, port=port)
+        finally:
+            self.expect = saved
+        self.rec[k] = rec
+        return rec
+
+    def _run(self, coro):
+        """run a harness coroutine to completion from inside or outside a
+        loop callback (everything it awaits completes at once)"""
+        if not self.loop.is_running():
+            return self.loop.run_until_complete(coro)
+        try:
+            coro.send(None)
+        except StopIteration as done:
+            return done.value
+        raise RuntimeError('harness coroutine needs the loop inside a '
+                           'callback')
+
     def sockets(self):
         return sorted(str(a) for a in set(self.loop.net.listeners) - self.base)
 
@@ -3261,6 +3356,16 @@ class AsyncListenWorld:
                 return await conn.forward_local_port('127.0.0.1', 0,
                                                      R_HOST, R_PORT)
             return await conn.forward_socks('127.0.0.1', 0)
+        if c.get('ans') == 'otherconn' and self.conn2 is None:
+            async def c2():
+                return await asyncssh.connect(
+                    '127.0.0.1', 2222, known_hosts=None, config=None,
+                    client_keys=None)
+            gating, self.gating = self.gating, False
+            self.conn2 = self.loop.run_until_complete(c2())
+            self.loop.run_until_idle()
+            self.gating = gating
+            self.base = self.base | set()
         if c['side'] == 'remote':
             self.remote_order.append(k)
         else:
@@ -3272,12 +3377,26 @@ class AsyncListenWorld:
         f = self.decisions.get(k)
         if f is None or f.done():
             return False
-        if ok:
-            self.expect = k
-        f.set_result(bool(ok))
+        f.set_result(self.make_answer(k))
         self.loop.run_until_idle()
         self.expect = None
+        self.check_port(k)
         return True
+
+    def check_port(self, k):
+        """for a port-0 request answered with the application's own listener
+        the client must be told that listener's port"""
+        t, rec = self.tasks.get(k), self.rec.get(k)
+        if rec is None or t is None or not t.done() or t.cancelled() or \
+                t.exception() is not None or self.cfg[k]['fam'] == 'unix':
+            return
+        if self.cfg[k].get('fixed'):
+            return
+        got = t.result().get_port()
+        if got != rec.get_port():
+            self.flag('PortReported', f'port-0 listen request {k}: the '
+                      f'client was told port {got}, the listener that '
+                      f'serves it is on {rec.get_port()}', 'applistener')
 
     def setup_done(self, k):
         f = self.gates.get(k)
@@ -3295,6 +3414,18 @@ class AsyncListenWorld:
 
         lsn.close()
         self.loop.run_until_idle()
+        if self.cfg[k]['side'] == 'remote' and not self.dead and \
+                (self.ct.closed or self.st.closed):
+            self.flag('CancelKeepsConnection', f'cancelling listen request '
+                      f'{k} ({self.cfg[k].get("ans", "true")} answer) tore '
+                      'the whole SSH connection down',
+                      self.cfg[k].get('ans', 'true'))
+            self.dead = True
+        rec = self.rec.get(k)
+        if rec is not None and rec.close_calls != 1:
+            self.flag('ClosedOnce', f'listen request {k} was cancelled: '
+                      f'close() was called {rec.close_calls} times on the '
+                      'application\'s listener', self.cfg[k]['ans'])
         return True
 
     def conn_end(self, how):
@@ -3330,9 +3461,14 @@ class AsyncListenWorld:
                     late.append(k)
             cause = 'local' if late else 'remote'
             self.flag('ListenersReleased', f'listening socket(s) {left} '
-                      'survive the end of their SSH connection (listener '
-                      f'became ready after the connection ended; {cause} '
-                      'side)', cause)
+                      'survive the end of their SSH connection '
+                      f'({cause} side)', cause)
+        for k, rec in sorted(self.rec.items()):
+            if rec.close_calls != 1:
+                self.flag('ClosedOnce', f'the connection ended: close() was '
+                          f'called {rec.close_calls} times on the listener '
+                          f'the application supplied for listen request {k}',
+                          self.cfg[k]['ans'])
         for t in self.tasks.values():
             if t.done() and not t.cancelled():
                 t.exception()           # retrieved: no "never retrieved" noise
@@ -3345,6 +3481,8 @@ class AsyncListenWorld:
             for t in self.tasks.values():
                 t.cancel()
             self.conn.abort()
+            if self.conn2 is not None:
+                self.conn2.abort()
             self.acceptor.close()
             for srv in list(self.loop.net.listeners.values()):
                 srv.close()
@@ -3366,8 +3504,12 @@ def replay_listen_async(steps):
             ok = True
             if op == 'request':
                 w.request(lbl[1], lbl[2])
-                res['script'].append(f'req{lbl[1]}:{lbl[2]["side"][0]}'
-                                     f'{lbl[2]["fam"][0]}')
+                if lbl[2].get('sync'):
+                    w.check_port(lbl[1])
+                res['script'].append(
+                    f'req{lbl[1]}:{lbl[2]["side"][0]}{lbl[2]["fam"][0]}'
+                    f'{"" if lbl[2].get("ans", "-") == "-" else "=" + lbl[2]["ans"]}'
+                    f'{"(sync)" if lbl[2].get("sync") else ""}')
             elif op == 'decide':
                 ok = w.decide(lbl[1], lbl[2])
                 res['script'].append(f'dec{lbl[1]}={"y" if lbl[2] else "n"}')
